@@ -3,7 +3,8 @@
 translate  : translate/c02_switches.py regenerates lean/SteelVerif/C02/GenSwitches.lean (every environment
              variable steel-core reads by name, with the test applied to it).
 prove      : lake build SteelVerif.C02.Props (+ axiom audit): the inlining pass preserves `evalIR`
-             (inline_preserves), the two-tier machine is transparent for every schedule (tier_transparent),
+             (inline_preserves), the two-tier machine is transparent for every schedule IF each native instruction equals the
+             interpreter's (tier_transparent_partial: the hypothesis is the untested-by-proof part),
              unit-local inlining is transparent for every history in which no later piece assigns an inlined
              global (inline_history_partial) and NOT in general (inline_history_false: the three-piece witness),
              the configuration sets cover the extracted switches pairwise / exhaustively.
@@ -38,7 +39,7 @@ META = {
     "ready": True,
     "category": "proof",
     "technique": "Lean 4 theorems about the configuration-dependent mechanisms on the lowered core of C01 (inlining pass preserves the reference semantics; two-tier execution is schedule-independent; unit-local inlining across evaluation histories is transparent exactly under a stated guard, with a machine-checked counter-witness outside it; the tested configuration sets cover the switches extracted from the source) + differential execution of generated programs and piecewise histories under a pairwise-covering (quick) / the complete (thorough) set of switch settings, one process per configuration, with the reference semantics as a third party",
-    "level_text": "Proved (SteelVerif/C02/Props.lean), for all programs of the lowered core, all stacks, all call depths: inline_preserves (one pass of the inliner with the real legality conditions - known unit-local callee, size below threshold, exact operand count, policy 'defined before the call site and not assigned in the unit' - yields a value iff the original does, and the same one; also with every procedure body of the unit rewritten), inline_twice_preserves (STEEL_INLINE: the pass run again on its own output), fold_preserves / inline_then_fold_preserves (constant folding and dead-branch elimination of what inlining exposes: identical results at identical fuel, errors included), tier_transparent (a machine that hands execution between interpreter and native tier at arbitrary instruction boundaries computes the result of the interpreter, for every schedule, given that a native instruction does what the interpreter's does) with tier_hypothesis_needed / tier_hypothesis_needed_error (a native call without arity check, and a native primitive that goes on with a placeholder after a type error - the shape of finding K02e - are observable), inline_needs_arity_check (without the operand-count condition - the recursive inliner, finding K02b - the rewrite turns an error into a value), inline_history_partial (pieces evaluated one after another over global cells, each compiled by the unit-local inliner: same observations as without inlining for every history in which no piece assigns a cell an earlier piece could inline) and inline_history_false (the full statement is refuted by the history define f, define g calling f / set! f / call g), switches_covered + quick_pairwise + thorough_complete (the configuration sets used by the run cover the five switches found in the source). NOT proved: that the Cranelift tier implements each op code like the interpreter (the hypothesis of tier_transparent - the differential run showed it to be false for errors raised by specialised primitive op codes, K02e, repaired by 89a126cc, and still shows it false for K02g/K02i), closure lifting, cross-module inlining, the recursive inliner, constant propagation; these are covered only by the differential run, which is a per-program fact. Open findings reproduced by the run: K02a (inlined global assigned later: stale copies to a configuration-dependent depth), K02c (STEEL_MODULE_INLINE turns value imports into live bindings), K02f (recursive inliner and a procedure that assigns its own parameter), K02g / K02i (native code keeps a local operand as a reference to its slot: a later set! or moving read changes it), K02h (stack-overflow diagnostic prints the instruction listing), K02j (a panic under a native frame aborts instead of unwinding), K02k (null? test on an empty vector). Repaired after being found by this check and now regression inputs of the corpus (a recurrence is a VIOLATION): K02b (afee3c69 recursive inliner ignored the operand count), K02d (e847bfbf stale module AST defeated the set_bang guard), K02e (89a126cc errors inside native library code were lost or aborted the process).",
+    "level_text": "Proved (SteelVerif/C02/Props.lean), for all programs of the lowered core, all stacks, all call depths: inline_preserves (one pass of the inliner with the real legality conditions - known unit-local callee, size below threshold, exact operand count, policy 'defined before the call site and not assigned in the unit' - yields a value iff the original does, and the same one; also with every procedure body of the unit rewritten), inline_twice_preserves (STEEL_INLINE: the pass run again on its own output), fold_preserves / inline_then_fold_preserves (constant folding and dead-branch elimination of what inlining exposes: identical results at identical fuel, errors included), tier_transparent_partial (CONDITIONAL: a machine that hands execution between interpreter and native tier at arbitrary instruction boundaries computes the result of the interpreter, for every schedule, GIVEN that a native instruction does what the interpreter's does on every state - that hypothesis is the JIT part of the property and is not proved; the hand-over state of the real protocol is not modelled) with tier_hypothesis_needed / tier_hypothesis_needed_error (a native call without arity check, and a native primitive that goes on with a placeholder after a type error - the shape of finding K02e - are observable), inline_needs_arity_check (without the operand-count condition - the recursive inliner, finding K02b - the rewrite turns an error into a value), inline_history_partial (pieces evaluated one after another over global cells, each compiled by the unit-local inliner: same observations as without inlining for every history in which no piece assigns a cell an earlier piece could inline) and inline_history_false (the full statement is refuted by the history define f, define g calling f / set! f / call g), switches_covered + quick_pairwise + thorough_complete (decided facts about tables: the configuration sets used by the run cover the five switches found in the source; nothing about program behaviour). The clauses of the property that no theorem carries are listed at the end of Props.lean. NOT proved: that the Cranelift tier implements each op code like the interpreter (the hypothesis of tier_transparent_partial - the differential run showed it to be false for errors raised by specialised primitive op codes, K02e, repaired by 89a126cc, and still shows it false for K02g/K02i), closure lifting, cross-module inlining, the recursive inliner, constant propagation; these are covered only by the differential run, which is a per-program fact. Open findings reproduced by the run: K02a (inlined global assigned later: stale copies to a configuration-dependent depth), K02c (STEEL_MODULE_INLINE turns value imports into live bindings), K02f (recursive inliner and a procedure that assigns its own parameter), K02g / K02i (native code keeps a local operand as a reference to its slot: a later set! or moving read changes it), K02h (stack-overflow diagnostic prints the instruction listing), K02j (a panic under a native frame aborts instead of unwinding), K02k (null? test on an empty vector). Repaired after being found by this check and now regression inputs of the corpus (a recurrence is a VIOLATION): K02b (afee3c69 recursive inliner ignored the operand count), K02d (e847bfbf stale module AST defeated the set_bang guard), K02e (89a126cc errors inside native library code were lost or aborted the process).",
     "level_note": "Trusted: Lean kernel, the translator regexes, harness/driver/comparison, generator coverage. The model of the inliner is my transcription on the lowered core (absolute stack offsets) of analysis.rs inline_function_calls/inline_handle_define; it is tied to the code only by the differential run (model value = value under every configuration on fragment programs and model histories).",
 }
 
